@@ -533,6 +533,8 @@ theorem step_adv (cfg : Cfg) (s : St) (op : Op) : Adv s (step cfg s op).1 := by
   | authorize user client scope redirect =>
     simp only [step]
     split
+    · exact Adv.refl s
+    split
     · rename_i s2 c h
       have h1 := mint_ok_adv h
       have h2 := (mint_ok_next h).1
